@@ -959,6 +959,48 @@ func validVectors(thorough bool) []Vec {
 	}
 	add("sleep", 4, "0s")
 	add("sleep", 6, "1ms")
+	if thorough {
+		// every valid netmask, every route prefix length, more servers, more MTUs, long labels
+		for l := 1; l <= 32; l++ {
+			m := net.CIDRMask(l, 32)
+			add("netmask", 4, net.IP(m).String())
+		}
+		var routes []string
+		for l := 0; l <= 32; l++ {
+			ip := net.IP{203, 0, 113, 255}.Mask(net.CIDRMask(l, 32))
+			routes = append(routes, fmt.Sprintf("%s/%d,192.0.2.%d", ip, l, l+1))
+			add("staticroute", 4, routes[len(routes)-1])
+		}
+		add("staticroute", 4, routes[:11]...)
+		add("staticroute", 4, routes[11:22]...)
+		add("staticroute", 4, routes[22:]...)
+		for n := 4; n <= 10; n++ {
+			var a4, a6 []string
+			for i := 0; i < n; i++ {
+				a4 = append(a4, fmt.Sprintf("10.%d.%d.%d", i, 255-i, i*25))
+				a6 = append(a6, fmt.Sprintf("2001:db8:%x::%x", i, 0xffff-i))
+			}
+			add("dns", 4, a4...)
+			add("router", 4, a4...)
+			add("dns", 6, a6...)
+		}
+		for _, m := range []string{"1", "255", "256", "1280", "9000", "32767", "32768", "65534"} {
+			add("mtu", 4, m)
+		}
+		for _, d := range []string{"1m", "24h", "168h", "1193046h", "59s", "61s"} {
+			add("lease_time", 4, d)
+			add("ipv6only", 4, d)
+		}
+		l63 := strings.Repeat("a", 63)
+		for _, a := range [][]string{{l63 + ".example"}, {l63 + "." + l63 + "." + l63 + ".ab"}, {"a", "b", "c", "d", "e", "f", "g", "h"}, {"xn--nxasmq6b.example", "UPPER.Example.COM"}} {
+			add("searchdomains", 4, a...)
+			add("searchdomains", 6, a...)
+		}
+		for _, u := range []string{"tftp://boot.example/", "tftp://10.0.0.1", "http://h/" + strings.Repeat("p", 200), "https://user:pw@h:8443/x?params=a%20b&other=1", "tftp://10.0.0.1:6969/a/b/c.d"} {
+			add("nbp", 4, u)
+			add("nbp", 6, u)
+		}
+	}
 	// dual stack: the same plugin under server6 and server4 with DIFFERENT values; each
 	// family must emit its own configuration
 	out = append(out,
